@@ -41,6 +41,7 @@ type c15Stream struct {
 	end    string
 	ch     chan clientv3.WatchResponse
 	open   bool
+	stale  bool // abandoned by the code under test (its watcher was stopped by a reload): nobody reads it
 	// replay not yet handed to the watcher: the harness pumps it response by
 	// response so that the interleaving of several replaying watchers is part
 	// of the case (deterministic) instead of left to the scheduler
@@ -58,11 +59,13 @@ func (s *c15Stream) matches(k string) bool {
 type C15Fake struct {
 	mu       sync.Mutex
 	rev      int64
+	rev0     int64
 	kv       map[string]string
 	log      []C15Event
 	lastLost int64
 	streams  []*c15Stream
 	getErrs  int
+	getHangs int
 	afterKey string
 	afterGet func()
 	batch    bool // replay as one multi-event response
@@ -74,7 +77,7 @@ type C15Fake struct {
 
 // NewC15Fake creates a store at revision rev0 (0 = never written).
 func NewC15Fake(rev0 int64, batchReplay bool) *C15Fake {
-	return &C15Fake{rev: rev0, kv: map[string]string{}, batch: batchReplay}
+	return &C15Fake{rev: rev0, rev0: rev0, kv: map[string]string{}, batch: batchReplay}
 }
 
 func (f *C15Fake) ActiveConnection() *grpc.ClientConn { return nil }
@@ -100,6 +103,69 @@ func (f *C15Fake) FailGets(n int) {
 	f.mu.Unlock()
 }
 
+// HangGets makes the next n Get calls black holes: no answer until the caller's
+// context is done (the code's RequestTimeout), then its error.
+func (f *C15Fake) HangGets(n int) {
+	f.mu.Lock()
+	f.getHangs = n
+	f.mu.Unlock()
+}
+
+// MarkStale declares every existing stream abandoned (called right before a
+// reload stops the watchers): events still go to it, a full buffer is not an error.
+func (f *C15Fake) MarkStale() {
+	f.mu.Lock()
+	for _, s := range f.streams {
+		s.stale = true
+	}
+	f.mu.Unlock()
+}
+
+// SendEmpty delivers a response without events (progress notification) to every open stream.
+func (f *C15Fake) SendEmpty() {
+	f.mu.Lock()
+	defer f.mu.Unlock()
+	for _, s := range f.streams {
+		if s.open {
+			f.send(s, clientv3.WatchResponse{Header: pb.ResponseHeader{Revision: f.rev}})
+		}
+	}
+}
+
+// ApplyBatch performs several store mutations and delivers them to every
+// matching open stream as ONE watch response.
+func (f *C15Fake) ApplyBatch(gap []C15Gap) {
+	f.mu.Lock()
+	defer f.mu.Unlock()
+	var evs []C15Event
+	for _, g := range gap {
+		f.rev++
+		e := C15Event{Rev: f.rev, Del: g.Del, Key: g.Key, Val: g.Val}
+		if g.Del {
+			e.Val = f.kv[g.Key]
+			delete(f.kv, g.Key)
+		} else {
+			f.kv[g.Key] = g.Val
+		}
+		f.log = append(f.log, e)
+		evs = append(evs, e)
+	}
+	for _, s := range f.streams {
+		if !s.open {
+			continue
+		}
+		var mine []C15Event
+		for _, e := range evs {
+			if s.matches(e.Key) {
+				mine = append(mine, e)
+			}
+		}
+		if len(mine) > 0 {
+			f.send(s, c15Resp(f.rev, mine))
+		}
+	}
+}
+
 // AfterNextGet registers a hook run once, right after the next successful Get
 // of exactly this key has taken its snapshot (events between the snapshot and
 // the watch).
@@ -116,6 +182,12 @@ func (f *C15Fake) Get(ctx context.Context, key string, opts ...clientv3.OpOption
 	if err := ctx.Err(); err != nil {
 		f.mu.Unlock()
 		return nil, err
+	}
+	if f.getHangs > 0 {
+		f.getHangs--
+		f.mu.Unlock()
+		<-ctx.Done()
+		return nil, ctx.Err()
 	}
 	if f.getErrs > 0 {
 		f.getErrs--
@@ -164,7 +236,9 @@ func (f *C15Fake) send(s *c15Stream, r clientv3.WatchResponse) {
 	select {
 	case s.ch <- r:
 	default:
-		f.Overflow = true
+		if !s.stale {
+			f.Overflow = true
+		}
 	}
 }
 
@@ -181,6 +255,11 @@ func (f *C15Fake) Watch(ctx context.Context, key string, opts ...clientv3.OpOpti
 	if r := op.Rev(); r != 0 {
 		if r > f.rev+1 {
 			f.BadWatch = fmt.Sprintf("Watch from future revision %d (store at %d)", r, f.rev)
+		}
+		if r <= f.rev0 {
+			// no Get can have returned a revision below the store's first one: such a start revision
+			// does not resume after a snapshot (a real server would answer "compacted")
+			f.BadWatch = fmt.Sprintf("Watch from revision %d, below the store's first revision %d", r, f.rev0)
 		}
 		from := r
 		if f.lastLost+1 > from {
@@ -332,6 +411,19 @@ func c15Cluster(endpoints []string) *cluster {
 	registry.lock.Lock()
 	defer registry.lock.Unlock()
 	return registry.clusters[key]
+}
+
+// C15LockFree reports whether the cluster's lock can be taken right now.
+func C15LockFree(endpoints []string) bool {
+	c := c15Cluster(endpoints)
+	if c == nil {
+		return true
+	}
+	if !c.lock.TryLock() {
+		return false
+	}
+	c.lock.Unlock()
+	return true
 }
 
 // C15Reload does what the connection-state listener installed by
